@@ -116,11 +116,15 @@ fn sched_case() -> impl Strategy<Value = SchedCase> {
         dangling_pct: 0,
         ..Default::default()
     };
-    (proptest::collection::vec(any::<u32>(), 60..900), any::<[u64; 3]>(), prop_oneof![Just(0u64), Just(2_000u64), Just(30_000u64), Just(150_000u64)], 0u8..3).prop_map(move |(c, salts, max_spin, family)| SchedCase {
-        // one third of the cases: wide levels with several failing sibling nodes
-        case: if family == 0 { crate::gen::graphs::build_wide_case(c) } else { build_case(c, &cfg) },
+    (proptest::collection::vec(any::<u32>(), 60..900), any::<[u64; 3]>(), prop_oneof![Just(0u64), Just(2_000u64), Just(30_000u64), Just(150_000u64)], 0u8..7).prop_map(move |(c, salts, max_spin, family)| SchedCase {
+        // 2/7: wide levels with several failing sibling nodes; 1/7: colliding computed mutations of unequal size
+        case: match family {
+            0 | 1 => crate::gen::graphs::build_wide_case(c),
+            2 => crate::gen::graphs::build_mutation_race_case(c),
+            _ => build_case(c, &cfg),
+        },
         salts,
-        max_spin: if family == 0 { max_spin.max(30_000) } else { max_spin },
+        max_spin: if family <= 1 { max_spin.max(30_000) } else { max_spin },
     })
 }
 
